@@ -46,15 +46,29 @@ impl Workbook {
         ensures r.is_ok() <==> worksheet_index < old(self).worksheets@.len()
     { unimplemented!() }
 }
+pub uninterp spec fn english_locale() -> &'static Locale;
+pub uninterp spec fn english_language() -> &'static Language;
+#[verifier::external_body] pub fn get_default_locale() -> (r: &'static Locale) ensures r == english_locale() { unimplemented!() }
+#[verifier::external_body] pub fn get_default_language() -> (r: &'static Language) ensures r == english_language() { unimplemented!() }
 impl Parser {
+    /// the locale / language the parser is set to
+    pub uninterp spec fn loc(&self) -> &Locale;
+    pub uninterp spec fn lang(&self) -> &Language;
     #[verifier::external_body]
-    pub fn set_lexer_mode(&mut self, mode: LexerMode) { unimplemented!() }
-    // every stored formula is parsed in the context of a sheet UNDER ITS OLD NAME
+    pub fn set_lexer_mode(&mut self, mode: LexerMode) ensures final(self).loc() == old(self).loc(), final(self).lang() == old(self).lang() { unimplemented!() }
+    #[verifier::external_body]
+    pub fn set_locale(&mut self, locale: &Locale) ensures final(self).loc() == locale, final(self).lang() == old(self).lang() { unimplemented!() }
+    #[verifier::external_body]
+    pub fn set_language(&mut self, language: &Language) ensures final(self).lang() == language, final(self).loc() == old(self).loc() { unimplemented!() }
+    // every stored formula is parsed in the context of a sheet UNDER ITS OLD NAME, by a parser set to the ENGLISH locale and language (C10: stored
+    // formulas are English whatever the display language is)
     #[verifier::external_body]
     pub fn parse(&mut self, formula: &str, context: &CellReferenceRC) -> (r: Node)
-        requires is_old_name(context.sheet@)
+        requires is_old_name(context.sheet@), old(self).loc() == english_locale(), old(self).lang() == english_language()
+        ensures final(self).loc() == old(self).loc(), final(self).lang() == old(self).lang()
     { unimplemented!() }
 }
+#[verifier::external_body] pub fn to_english_string(node: &Node, context: &CellReferenceRC) -> String { unimplemented!() }
 #[verifier::external_body]
 pub fn rename_sheet_in_node(node: &mut Node, sheet_index: u32, new_name: &str)
     requires sheet_index == g_index(), new_name@ == g_new_name()
@@ -65,7 +79,7 @@ pub fn rename_sheet_in_node(node: &mut Node, sheet_index: u32, new_name: &str)
 
 impl<'a> Model<'a> {
     #[verifier::external_body] pub fn get_sheet_index_by_name(&self, name: &str) -> Option<u32> { unimplemented!() }
-    #[verifier::external_body] pub fn reset_parsed_structures(&mut self) ensures final(self).workbook == old(self).workbook { unimplemented!() }
+    #[verifier::external_body] pub fn reset_parsed_structures(&mut self) ensures final(self).workbook == old(self).workbook, final(self).parser.loc() == old(self).parser.loc(), final(self).parser.lang() == old(self).parser.lang() { unimplemented!() }
 
 //@fn base/src/new_empty.rs Model::rename_sheet_by_index
 //@attr
@@ -79,6 +93,8 @@ impl<'a> Model<'a> {
     ensures
         // C04: nothing is touched when the request is refused
         r.is_err() ==> final(self).workbook == old(self).workbook,
+        // the parser is handed back set to the model's own locale and language
+        r.is_ok() ==> final(self).parser.loc() == old(self).locale && final(self).parser.lang() == old(self).language,
 //@rewrite `) -> Result<(), String> {` => `) -> (r: Result<(), String>) {`
 //@rewrite `for worksheet in &mut self.workbook.worksheets {` => `for worksheet in self.workbook.worksheets.iter_mut() {`
 //@before `for worksheet in self.workbook.worksheets.iter_mut() {`
@@ -86,9 +102,14 @@ impl<'a> Model<'a> {
         assert(is_old_name(old_name@)) by { assert(g_old_names()[sheet_index as int] == old_name@); }
 //@loop 1 it
             invariant
+                self.parser.loc() == english_locale(), self.parser.lang() == english_language(),
                 oc.len() == self.workbook.worksheets@.len(),
                 it.iter.remaining().len() + it.index@ == oc.len(),
                 forall|j: int| 0 <= j < it.iter.remaining().len() ==> *#[trigger] it.iter.remaining()[j] == oc[it.index@ + j],
+//@loop 2
+                invariant self.parser.loc() == english_locale(), self.parser.lang() == english_language(),
+//@loop 3
+            invariant self.parser.loc() == english_locale(), self.parser.lang() == english_language(),
 //@before#1 `let cell_reference = &CellReferenceRC {`
             assert(it.iter.remaining().len() >= 1);
             assert(*worksheet == oc[it.index@]);
